@@ -6,10 +6,11 @@
    stdin lines:
      R                              reset the artefact store (empty build directory)
      F <kind> <id> <cid> <mtime>    a source file of the coming deployment
-                                    kind: 0 default 1 default.custom 2 schema 3 custom 4 dict 5 vocabulary
+                                    kind: 0 default 1 default.custom 2 schema 3 custom 4 dict 5 vocabulary 6 other config resource
      L <key> <ids|->                schema_list of the compiled default built from <key>
      I <key> <dict|-> <prism|-> <packs|-> <deps|->   contents of the compiled schema built from <key>
      D <cid> <imports|-> <vocab|->  header of the dictionary file with content <cid>
+     P <target d|schema id> <k:id,...>   resources the config compiler loads for that target (kinds as in F, 6 = other)
      G                              deploy; prints the decision log, then "ok <0|1>", then "end"
    <key> = content ids of the resources a compiled config is built from, in the
    model's [deps_of] order, "-" for an absent file, comma separated. *)
@@ -18,6 +19,7 @@ let arts : (akey * art) list ref = ref []
 let ltab : (string, n list) Hashtbl.t = Hashtbl.create 16
 let itab : (string, schema_info) Hashtbl.t = Hashtbl.create 16
 let dtab : (int, dict_info) Hashtbl.t = Hashtbl.create 16
+let ptab : (string, rname list) Hashtbl.t = Hashtbl.create 16
 let crctab : (string, int) Hashtbl.t = Hashtbl.create 64
 let cytab : (string, int) Hashtbl.t = Hashtbl.create 64
 let fresh = ref 1000
@@ -48,6 +50,14 @@ let dinfo_of c = match Hashtbl.find_opt dtab (int_of_n c) with
   | Some d -> d
   | None -> { di_imports = []; di_vocab = None }
 
+let rname_of k id = match k with
+  | 0 -> RDefault | 1 -> RDefaultCustom | 2 -> RSchema id | 3 -> RCustom id | _ -> ROther id
+let tkey = function None -> "d" | Some x -> string_of_int (int_of_n x)
+let deps_fn (_ : (fname * fver) list) (t : n option) : rname list =
+  match Hashtbl.find_opt ptab (tkey t) with
+  | Some l -> l
+  | None -> (match t with None -> [RDefault; RDefaultCustom] | Some x -> [RDefault; RDefaultCustom; RCustom x; RSchema x])
+
 let b x = if x then 1 else 0
 let tname = function None -> "default" | Some x -> "schema" ^ string_of_int (int_of_n x)
 
@@ -73,18 +83,25 @@ let () =
         let id = n_of_int (int_of_string id) in
         let f = match int_of_string k with
           | 0 -> FRes RDefault | 1 -> FRes RDefaultCustom | 2 -> FRes (RSchema id) | 3 -> FRes (RCustom id)
-          | 4 -> FDict id | _ -> FVocab id in
+          | 4 -> FDict id | 5 -> FVocab id | _ -> FRes (ROther id) in
         srcs := !srcs @ [(f, { fv_cid = n_of_int (int_of_string cid); fv_mtime = n_of_int (int_of_string mt) })]
       | ["L"; key; l] -> Hashtbl.replace ltab key (ids l)
       | ["I"; key; d; p; pk; dp] ->
         Hashtbl.replace itab key { si_dict = opt d; si_prism = opt p; si_packs = ids pk; si_deps = ids dp }
+      | ["P"; t; l] ->
+        let rs = if l = "-" then [] else List.map (fun x ->
+            match String.split_on_char ':' x with
+            | [k; id] -> rname_of (int_of_string k) (n_of_int (int_of_string id))
+            | _ -> failwith "bad resource") (String.split_on_char ',' l) in
+        Hashtbl.replace ptab t rs
       | ["D"; cid; im; v] -> Hashtbl.replace dtab (int_of_string cid) { di_imports = ids im; di_vocab = opt v }
       | ["G"] ->
-        let ((a, log), ok) = deploy crc cyid list_of info_of dinfo_of !srcs !arts in
+        let ((a, log), ok) = deploy crc cyid list_of info_of dinfo_of deps_fn !srcs !arts in
         arts := a;
         List.iter print_entry log;
         Printf.printf "ok %d\nend\n%!" (b ok);
-        srcs := []
+        srcs := [];
+        Hashtbl.reset ptab
       | _ -> print_endline "BADLINE"
     done
   with End_of_file -> ()
